@@ -26,6 +26,7 @@ CONSTANTS
   ROffsets <- MC_RO
   AOffsets <- MC_AO
   Emit = TRUE
+  ClampNegative = TRUE
 INVARIANT SliceOK
 INVARIANT EmitCase
 CHECK_DEADLOCK FALSE
@@ -128,7 +129,7 @@ def self_test(ctx: Ctx):
 def run(ctx: Ctx):
     quick = ctx.tier == "quick"
     ctx.rule = ("(radial bins, azimuthal bins, radial sampling, radial offset, azimuthal offset, radial limits, azimuthal limits) "
-                "with limits on bin edges or absent, all enumerated by TLC from PolarImpl; executed on a one-hot ensemble over "
+                "with limits on bin edges, one bin below the first edge, inside a bin, or absent, all enumerated by TLC from PolarImpl; executed on a one-hot ensemble over "
                 "the bins; plus partitions of each axis into 2-3 edge-aligned ranges; non-trivial = at least one limit given")
     r = ctx.design_check("MCPolar", cfg_text=CFG.format(r=3 if quick else 4, a=4 if quick else 6), label="PolarImpl=>Polar",
                          workers=1, timeout=3000)
@@ -138,7 +139,20 @@ def run(ctx: Ctx):
     rng = random.Random(ctx.seed)
     if quick:
         rng.shuffle(cases)
-        cases = cases[:2500]
+        # every class of limit placement (absent / on edges / below the first bin / inside a bin, per axis) x offsets at every seed
+        def cls(lim, o, s_):
+            if lim == []:
+                return "none"
+            lo = Fraction(lim[0][0], lim[0][1]) - Fraction(o[0], o[1])
+            k = lo / Fraction(s_[0], s_[1])
+            return "below" if lo < 0 else ("edge" if k.denominator == 1 else "mid")
+        seen, first, rest = set(), [], []
+        for c in cases:
+            k = (cls(c["rl"], c["ro"], c["rs"]), cls(c["al"], c["ao"], c["as"]), c["ro"][0] == 0, c["ao"][0] == 0)
+            (rest if k in seen else first).append(c)
+            seen.add(k)
+        cases = first + rest[:2500]
+        ctx.notes["strata"] = len(seen)
     else:
         ctx.exhaustive = True
     evs = []
